@@ -26,6 +26,11 @@ NEIGHBOUR_SETS = [
     ("rec", ["rec1", "re", "rec-a"]),
     ("a-b", ["a", "a-b-c", "a-bb"]),
     ("X9", ["X", "X90", "X9-0"]),
+    # names that look like parts of the file-name syntax NAME[.p<index>].ih5 (letters and digits only)
+    ("step1", ["st", "step", "step10"]),
+    ("ih5", ["ih", "i", "ih5p1"]),
+    ("xp2", ["x", "xp", "xp20"]),
+    ("p1-ih5", ["p1", "p", "p1-ih5-p2"]),
 ]
 
 
@@ -48,6 +53,21 @@ class Proto:
         wr = bool(rw and meta and meta[-1].hdf5_hashsum is None)
         return {"open": True, "rw": rw, "wr": wr, "rname": self.rname}
 
+    def mfkw(self, cs, move: bool = False) -> Dict[str, Any]:
+        """Where the manifest of the newest of the given containers lives: IH5MFRecord accepts it at another
+        place through manifest_file=...; now and then the harness moves the newest manifest to d/mfalt first."""
+        if self.cls is not IH5MFRecord or not cs:
+            return {}
+        c = max(cs, key=lambda c_: (c_["idx"], c_["fn"][1]))
+        mp = protolib.manifest_path(self.d, c["fn"])
+        alt = self.d / "mfalt" / mp.name
+        if move and mp.is_file():
+            alt.parent.mkdir(exist_ok=True)
+            if alt.exists():
+                alt.unlink()
+            mp.rename(alt)
+        return {"manifest_file": alt} if (not mp.is_file() and alt.is_file()) else {}
+
     def view_digest(self) -> str:
         if self.rec is None:
             return ""
@@ -61,13 +81,15 @@ class Proto:
             if self.rec is not None:
                 raise RuntimeError("harness: a handle is already open")
             rn = a["rname"]
+            cs = protolib.scan(self.d, [rn])[0]
+            kw = self.mfkw(cs, move=a["mode"] in ("r", "r+", "a") and self.rng.random() < 0.15)
             try:
                 if a["bylist"]:
-                    fl = [protolib.container_path(self.d, c["fn"]) for c in protolib.scan(self.d, [rn])[0]]
+                    fl = [protolib.container_path(self.d, c["fn"]) for c in cs]
                     self.rng.shuffle(fl)
-                    rec = self.cls(fl, a["mode"])
+                    rec = self.cls(fl, a["mode"], **kw)
                 else:
-                    rec = self.cls(self.d / rn, a["mode"])
+                    rec = self.cls(self.d / rn, a["mode"], **kw)
             except BaseException:
                 gc.collect()
                 raise
@@ -112,7 +134,7 @@ class Proto:
             fl = [protolib.container_path(self.d, c["fn"]) for c in fs]
             self.rng.shuffle(fl)
             try:
-                rec = self.cls(fl, a["mode"])
+                rec = self.cls(fl, a["mode"], **self.mfkw(fs))
             except BaseException:
                 gc.collect()
                 raise
@@ -180,7 +202,7 @@ def chain_checks(p: Proto, disk) -> List[Dict[str, Any]]:
         files = [protolib.container_path(p.d, c["fn"]) for c in tgt + later]
         p.rng.shuffle(files)
         try:
-            r = p.cls(files, "r")
+            r = p.cls(files, "r", **p.mfkw(tgt + later))
             try:
                 v = h5lib.project(r, p.km, p.tk)["view"]
                 out.append({"target": m["target"], "ok": True, "exc": "",
